@@ -58,6 +58,9 @@ def program(is_async=True):
     fl = "gated" if is_async else "sync"
     f0 = f("f0", "function", [
         {"t": "require", "cid": 1, "args": ["x"], "lam": False, "flavor": fl, "err": {"form": "default"}},
+        # a second precondition in the same group (evaluated first): a call can be suspended in it while another
+        # call of f0 goes through the whole group
+        {"t": "require", "cid": 6, "args": ["x"], "lam": False, "flavor": fl, "err": {"form": "default"}},
         {"t": "snapshot", "sid": 1, "name": "s1", "args": ["x"], "flavor": fl, "lam": False},
         {"t": "ensure", "cid": 2, "args": ["x", "result"], "lam": False, "flavor": fl, "err": {"form": "default"}}])
     m = f("m", "method", [{"t": "require", "cid": 3, "args": ["x"], "lam": False, "flavor": fl, "err": {"form": "default"}}])
@@ -73,6 +76,7 @@ def program(is_async=True):
 CALLS = {
     "f0:ok": ({"op": "callf", "f": "f0"}, {}),
     "f0:pre": ({"op": "callf", "f": "f0"}, {1: "F"}),
+    "f0:pre6": ({"op": "callf", "f": "f0"}, {6: "F"}),
     "f0:post": ({"op": "callf", "f": "f0"}, {2: "F"}),
     "m:ok": ({"op": "call", "k": 0, "m": "m"}, {}),
     "m:pre": ({"op": "call", "k": 0, "m": "m"}, {3: "F"}),
@@ -115,8 +119,8 @@ def setup_run(loaded, task_truth):
     run.tl = threading.local()
     run.hooks[("truthfn",)] = truthfn(task_truth)
     run.gate_actions = {}
-    for kind, ident in (("cond", 1), ("cond", 2), ("cond", 3), ("cond", 4), ("cap", 1), ("body", "f0"), ("body", "K0.m"),
-                        ("body", "K0.n")):
+    for kind, ident in (("cond", 1), ("cond", 2), ("cond", 3), ("cond", 4), ("cond", 6), ("cap", 1), ("body", "f0"),
+                        ("body", "K0.m"), ("body", "K0.n")):
         tag = ("gate", kind, ident)
         run.hooks[("gate", kind, ident)] = (lambda t: (lambda r: vrt.Yield(t)))(tag)
     return run
@@ -290,8 +294,8 @@ def run_thread_schedule(loaded, names, mode, schedule):
                     go_ev[ti].clear()
                 return hook
 
-            for key in (("cond", 1), ("cond", 2), ("cond", 3), ("cond", 4), ("cap", 1), ("body", "f0"), ("body", "K0.m"),
-                        ("body", "K0.n")):
+            for key in (("cond", 1), ("cond", 2), ("cond", 3), ("cond", 4), ("cond", 6), ("cap", 1), ("body", "f0"),
+                        ("body", "K0.m"), ("body", "K0.n")):
                 run.hooks[key] = gate_hook(None)
 
             repr_gate = gate_hook(None)
@@ -360,11 +364,21 @@ def run_thread_schedule(loaded, names, mode, schedule):
     return box["outs"], box["overlap"]
 
 
+_alone_cache = {}
+
+
 def alone(loaded, name, is_async):
-    """Verdict of the call run alone in a fresh thread."""
-    runner = run_async_schedule if is_async else run_thread_schedule
-    outs, _ = runner(loaded, [name], "fresh", [0] * 8)
-    return outs[0]
+    """Verdict of the call run alone in a fresh thread, on a module of its own (cached per call kind)."""
+    key = (name, is_async, id(loaded))
+    if key not in _alone_cache:
+        runner = run_async_schedule if is_async else run_thread_schedule
+        fresh = RUN.Loaded(program(is_async))
+        try:
+            outs, _ = runner(fresh, [name], "fresh", [0] * 8)
+        finally:
+            fresh.close()
+        _alone_cache[key] = outs[0]
+    return _alone_cache[key]
 
 
 def interleavings(counts):
@@ -393,7 +407,13 @@ def check_scenario(ctx, names, mode, is_async, schedules):
         ctx.excluded_by_known += len(schedules)
         return
     for sch in schedules:
-        outs, overlap = runner(loaded, names, mode, list(sch))
+        # a module of its own for every schedule: state that a call leaves on the contract lists must not carry over
+        # from the 'alone' runs or from an earlier schedule
+        fresh = RUN.Loaded(program(is_async))
+        try:
+            outs, overlap = runner(fresh, names, mode, list(sch))
+        finally:
+            fresh.close()
         case = {"names": list(names), "mode": mode, "async": is_async, "schedule": list(sch)}
         violating = any(":" in n and not n.endswith(":ok") for n in names)
         nt = overlap and violating
@@ -416,7 +436,7 @@ def check_scenario(ctx, names, mode, is_async, schedules):
                 return
 
 
-SEGMENTS = {"f0:ok": 4, "f0:pre": 2, "f0:post": 4, "m:ok": 3, "m:pre": 2, "m:inv": 1, "n:ok": 3, "n:post": 3, "n1:post": 3,
+SEGMENTS = {"f0:ok": 5, "f0:pre": 3, "f0:pre6": 2, "f0:post": 5, "m:ok": 3, "m:pre": 2, "m:inv": 1, "n:ok": 3, "n:post": 3, "n1:post": 3,
             "new": 1, "new:inv": 1}
 
 
@@ -432,7 +452,8 @@ def st_scenario(draw):
 
 
 FIXED = [
-    (["f0:ok", "f0:pre"], True), (["f0:pre", "f0:ok"], True), (["f0:post", "f0:ok"], True), (["f0:ok", "f0:post"], True),
+    (["f0:ok", "f0:pre"], True), (["f0:pre", "f0:ok"], True), (["f0:pre", "f0:pre"], True), (["f0:pre6", "f0:pre"], True), (["f0:pre6", "f0:pre6"], True), (["f0:pre", "f0:pre6"], True),
+    (["f0:pre", "f0:pre"], False), (["f0:pre6", "f0:pre6"], False), (["f0:post", "f0:ok"], True), (["f0:ok", "f0:post"], True),
     (["m:ok", "n:post"], True), (["m:inv", "n:ok"], True), (["m:ok", "m:pre"], True), (["n:ok", "n1:post"], True),
     (["new:inv", "m:ok"], True), (["f0:ok", "f0:pre"], False), (["m:ok", "n:post"], False), (["f0:post", "f0:ok"], False),
 ]
